@@ -14,12 +14,14 @@ TECHNIQUE = 'static analysis (no execution): event-language equality (NFA->DFA o
 LEVEL = "other"
 EXPLANATION = (
     "Path-complete comparison of the interpreter's event structure with a declarative table of the language "
-    "definition: for each of the six command arms of execute_one, the area/jump segment, area::calc, the push and "
-    "pop wrappers (I/O stacks 0/1/2, flush-before-exit, exit codes), the NaN rules of the stack cell and the driver "
-    "loop, the regular language of events (pops, pushes, accumulator operations, reversals, stack selection, label "
-    "table operations, branch outcomes, returns) over ALL control-flow paths of the body equals the language the "
-    "definition prescribes. Decides the structural clause (order, operands, targets, branch selection) for every "
-    "program and input; does NOT decide arithmetic values, the induction over a whole run, or Debug rendering."
+    'definition: for each of the six command arms of execute_one, the area/jump segment, area::calc, the push and pop '
+    'wrappers (I/O stacks 0/1/2, flush-before-exit, exit codes), the NaN rules of the stack cell and the driver loop, '
+    'the regular language of events (pops, pushes, accumulator operations, reversals, stack selection, label table '
+    'operations, branch outcomes, returns) over ALL control-flow paths of the body equals the language the definition '
+    'prescribes; the terminating paths of the pop wrapper are decided as a table stack index -> (flushes, exit '
+    'status); the comparison the area branches on (Num::partial_cmp) has its defining language (shared with C07). '
+    'Decides the structural clause (order, operands, targets, branch selection) for every program and input; does NOT '
+    'decide arithmetic values, the induction over a whole run, or Debug rendering.'
 )
 ASSUMPTIONS = [
     "rustc MIR (nightly 1.97, mir-opt-level=0) faithfully represents the source; unwind edges ignored",
